@@ -126,6 +126,36 @@ pub fn family(name: &str) -> Family {
             binary: vec!["then", "or", "sepB", "foldl", "foldr", "sepexact", "enumsep", "sepcount", "seprun"],
             alphabet: vec!["a", "b", ","],
         },
+        "rcv" => Family {
+            leaves: vec![j("a"), j("b"), jj("a", "b"), json!(["any"])],
+            unary: vec!["ornot", "rep0", "rep12", "validate", "recover", "recover", "map"],
+            binary: vec!["then", "or", "choicev", "sepc"],
+            alphabet: vec!["a", "b"],
+        },
+        "lbl" => Family {
+            leaves: vec![j("a"), j("b"), jj("a", "b"), json!(["any"]), json!(["end"]), json!(["cust", 1, false])],
+            unary: vec!["ornot", "label", "labelctx", "maperr", "maperrid", "validate", "rep0", "rewind"],
+            binary: vec!["then", "or", "choicev", "andis"],
+            alphabet: vec!["a", "b"],
+        },
+        "memo" => Family {
+            leaves: vec![j("a"), j("b"), jj("a", "b"), json!(["any"]), json!(["cust", 1, false])],
+            unary: vec!["ornot", "memo", "memo", "rewind", "trymap", "map", "rep0", "rep1"],
+            binary: vec!["then", "or", "andis", "choicev"],
+            alphabet: vec!["a", "b"],
+        },
+        "ctx" => Family {
+            leaves: vec![j("a"), j("b"), json!(["any"]), json!(["cfgjust"]), json!(["mw", ["any"]])],
+            unary: vec!["ornot", "mw", "withctx", "mapctx", "mapnum", "rep0", "cfgrep", "cfgrun"],
+            binary: vec!["then", "or", "thenctx", "ignctx"],
+            alphabet: vec!["a", "b"],
+        },
+        "rec" => Family {
+            leaves: vec![j("a"), j("b"), j("("), j(")")],
+            unary: vec!["ornot", "rep0", "map", "recA", "recB", "recC", "memo"],
+            binary: vec!["then", "or", "delim"],
+            alphabet: vec!["a", "b", "(", ")"],
+        },
         _ => panic!("unknown family {name}"),
     }
 }
@@ -173,6 +203,31 @@ pub fn gen(r: &mut Rng, f: &Family, budget: usize) -> J {
             "repcount" => json!(["collect", ["rep", non_empty(r, f, budget - 1), b.0, b.1], *r.pick(&["count", "count2", "unit"])]),
             "repstr" => json!(["collect", ["rep", non_empty(r, f, budget - 1), b.0, b.1], "str"]),
             "enumrep" => json!(["collect", ["enum", ["rep", non_empty(r, f, budget - 1), b.0, b.1]], "vec"]),
+            "recover" => {
+                let a = gen(r, f, budget - 1);
+                let leaf = |r: &mut Rng| r.pick(&f.leaves).clone();
+                let st = match r.below(5) {
+                    0 => json!(["via", leaf(r)]),
+                    1 => json!(["via", ["to", leaf(r), "k"]]),
+                    2 => json!(["skipuntil", ["any"], r.pick(&[json!(["just", ["b"]]), json!(["end"]), json!(["just", ["a"]])]).clone()]),
+                    3 => json!(["retry", ["any"], r.pick(&[json!(["just", ["b"]]), json!(["end"])]).clone()]),
+                    _ => json!(["skipuntil", ["just", ["a"]], ["just", ["b"]]]),
+                };
+                json!(["recover", a, st])
+            }
+            "label" => json!(["label", gen(r, f, budget - 1), *r.pick(&["L", "M"]), false]),
+            "labelctx" => json!(["label", gen(r, f, budget - 1), *r.pick(&["L", "M"]), true]),
+            "maperr" => json!(["maperr", gen(r, f, budget - 1), "tag"]),
+            "maperrid" => json!(["maperr", gen(r, f, budget - 1), "id"]),
+            "withctx" => json!(["withctx", r.pick(&[json!(["T", "a"]), json!(["S", ["a", "b"]]), json!(["I", 2]), json!(["T", "b"])]).clone(), gen(r, f, budget - 1)]),
+            "mapctx" => json!(["mapctx", "f", gen(r, f, budget - 1)]),
+            "mapnum" => json!(["map", gen(r, f, budget - 1), "num"]),
+            "cfgrep" => json!(["collect", ["cfgrep", ["rep", non_empty(r, f, budget - 1), 0, -1]], "vec"]),
+            "cfgrun" => json!(["run", ["cfgrep", ["rep", non_empty(r, f, budget - 1), 0, -1]]]),
+            // guarded recursion templates: a token is consumed before every self reference
+            "recA" => json!(["rec", ["or", ["then", non_empty(r, f, budget - 1), ["ref", 1]], r.pick(&f.leaves).clone()]]),
+            "recB" => json!(["rec", ["delim", ["ornot", ["ref", 1]], ["just", ["("]], ["just", [")"]]]]),
+            "recC" => json!(["rec", ["collect", ["rep", ["or", ["delim", ["ref", 1], ["just", ["("]], ["just", [")"]]], non_empty(r, f, budget - 1)], 0, -1], "vec"]]),
             o => json!([o, gen(r, f, budget - 1)]),
         }
     } else {
